@@ -128,6 +128,17 @@ def _bulk(ctx, index):
 
 def run(ctx):
     """entry"""
+    args = None
+    d = None
+    item_var = None
+    k = None
+    mt = None
+    n = None
+    ok = None
+    t = None
+    tpl = None
+    v = None
+    var = None
     index = ctx.index
     ctx.explanation = (
         "Def/use closure of `$ref` templates against `components[...]` stores with guard-fact implication; "
@@ -151,202 +162,217 @@ def run(ctx):
         facts_at[id(s)] = facts
 
     GuardWalker(on_expr=on_expr, on_stmt=on_stmt).walk_function(f.node)
-    # ---------------------------------------------------------------- refs
-    uses = []
-    for n in iter_own(f.node):
-        if isinstance(n, ast.Dict):
-            for k, v in zip(n.keys, n.values):
-                if isinstance(k, ast.Constant) and k.value == "$ref":
-                    uses.append((v, n))
-    ctx.count("ref_uses", len(uses))
-    ctx.floor("$ref uses in the OpenAPI emitter", len(uses), 5)
-    stores = []  # (section, key template, key args, stmt)
-    for n in iter_own(f.node):
-        if isinstance(n, ast.Assign) and isinstance(n.targets[0], ast.Subscript):
-            t = n.targets[0]
-            if isinstance(t.value, ast.Subscript) and norm(t.value.value) == "components" and isinstance(t.value.slice, ast.Constant):
-                key = t.slice
-                if isinstance(key, ast.Name):
-                    tpl, args = "{" + key.id + "}", {key.id: key.id}
-                else:
-                    tpl, args = _template(key)
-                stores.append((t.value.slice.value, tpl, args, n))
-    # initial literal of openapi(): components = {"requestBodies": {}, "schemas": {"ServerError": ...}}
-    initial = {}
-    for n in iter_own(op.node):
-        if isinstance(n, ast.Dict):
-            for k, v in zip(n.keys, n.values):
-                if isinstance(k, ast.Constant) and k.value in ("schemas", "requestBodies") and isinstance(v, ast.Dict):
-                    initial.setdefault(k.value, set()).update(x.value for x in v.keys if isinstance(x, ast.Constant))
-    ctx.need("schemas" in initial and "requestBodies" in initial, "openapi()'s initial components literal vanished")
-    flag_sets = {}  # flag name -> [facts at each `flag = True`]
-    for n in iter_own(f.node):
-        if isinstance(n, (ast.Assign, ast.AnnAssign)) and isinstance(n.value, ast.Constant) and n.value.value is True:
-            t = n.targets[0] if isinstance(n, ast.Assign) else n.target
-            if isinstance(t, ast.Name):
-                flag_sets.setdefault(t.id, []).append(facts_at.get(id(n)) or {})
-    for v, d in uses:
-        tpl, args = _template(v)
-        if tpl is None:
-            ctx.ob("C16.refs", f, v, False, "a $ref that is not a constant template cannot be shown to resolve")
-            continue
-        mt = re.match(r"^#/components/(\w+)/(.+)$", tpl)
-        if not mt:
-            ctx.ob("C16.refs", f, v, False, "$ref {!r} does not point into #/components/<section>/".format(tpl))
-            continue
-        section, keytpl = mt.group(1), mt.group(2)
-        use_facts = facts_at.get(id(d)) or {}
-        if "{" not in keytpl:
-            ok = keytpl in initial.get(section, ())
-            ctx.ob(
-                "C16.refs",
-                f,
-                v,
-                ok,
-                "" if ok else "{!r} is referenced but openapi()'s initial components literal does not define it".format(tpl),
-            )
-            continue
-        cands = [s for s in stores if s[0] == section and s[1] == keytpl and s[2] == args]
-        if not cands:
-            ctx.ob(
-                "C16.refs",
-                f,
-                v,
-                False,
-                "no `components[{!r}][{}] = ...` store with the same key template: the reference dangles".format(section, keytpl),
-            )
-            continue
-        # guard implication: every fact the definition needs is implied by the use's facts
-        ok, why = False, ""
-        for _sec, _tpl, _args, stmt in cands:
-            need = {k: val for k, val in (facts_at.get(id(stmt)) or {}).items()}
-            missing = []
-            for k, val in need.items():
-                if use_facts.get(k) is val:
-                    continue
-                # a boolean flag set to True under (a subset of) the use's facts
-                if val is True and k in flag_sets and any(all(use_facts.get(a) is b for a, b in fs.items()) for fs in flag_sets[k]):
-                    continue
-                missing.append("{} is {}".format(k, val))
-            if not missing:
-                ok = True
-                break
-            why = "the definition only happens when {} — not implied by the condition under which the reference is written".format(missing)
-        ctx.ob("C16.refs", f, v, ok, why)
-    # ---------------------------------------------------------------- crud
-    table = {}
-    item_var = None
-    for n in iter_own(f.node):
-        if isinstance(n, ast.If) and isinstance(n.test, ast.Compare) and isinstance(n.test.ops[0], ast.In) and isinstance(n.test.left, ast.Constant) and norm(n.test.comparators[0]) == "crud":
-            letter = n.test.left.value
-            for s in n.body:
-                if isinstance(s, ast.Assign) and isinstance(s.targets[0], ast.Subscript):
-                    t = s.targets[0]
-                    if norm(t.value) == "paths" and isinstance(s.value, ast.Dict):
-                        for k in s.value.keys:
-                            if isinstance(k, ast.Constant) and k.value in ("get", "post", "put", "patch", "delete"):
-                                table[letter] = (k.value, norm(t.slice))
-                    elif isinstance(t.value, ast.Subscript) and norm(t.value.value) == "paths" and isinstance(t.slice, ast.Constant):
-                        table[letter] = (t.slice.value, norm(t.value.slice))
-    defs = local_defs(f)
-    kinds = {}
-    for var in {v for _m, v in table.values()}:
-        if var in f.params:
-            kinds[var] = "collection"
-        else:
-            d = defs.get(var, [])
-            tpl, args = _template(d[0]) if d else (None, None)
-            if tpl and re.match(r"^\{route\}/\{\{\{(\w+)\}\}\}$", tpl):
-                kinds[var] = "item"
-                item_var = (var, args, d[0])
-            else:
-                kinds[var] = "?"
-    emit_table = {k: (m, kinds.get(v, "?")) for k, (m, v) in table.items()}
-    for letter, want in sorted(EXPECTED.items()):
-        got = emit_table.get(letter)
-        ctx.ob(
-            "C16.crud",
-            f,
-            "OpenAPI emitter: {} -> {}".format(letter, got),
-            got == want,
-            "" if got == want else "requested {} must produce {} on the {} path, the emitter produces {}".format(letter, want[0].upper(), want[1], got),
-            line=f.node.lineno,
-        )
-    extra = sorted(set(emit_table) - set(EXPECTED))
-    ctx.ob("C16.crud", f, "no operation beyond C/R/D", not extra, "" if not extra else "unexpected letters handled: {}".format(extra), line=f.node.lineno)
-    # the routes side
-    gr = index.func("cdd.compound.openapi.gen_routes.gen_routes")
-    letter_fn = {}
-    for n in iter_own(gr.node):
-        if isinstance(n, ast.If) and isinstance(n.test, ast.Compare) and isinstance(n.test.left, ast.Constant) and norm(n.test.comparators[0]) == "crud":
-            for c in ast.walk(n):
-                if isinstance(c, ast.Call):
-                    r = index.callee(gr.mod, c, gr)
-                    if r and r.startswith("cdd.routes.emit.bottle."):
-                        letter_fn[n.test.left.value] = r
-        if isinstance(n, ast.Dict):
-            for k, v in zip(n.keys, n.values):
-                if isinstance(k, ast.Constant) and k.value in "CRUD" and len(str(k.value)) == 1:
-                    if isinstance(v, ast.Constant) and v.value is None:
-                        letter_fn.setdefault(k.value, None)
+    def _sec_refs():
+        nonlocal args, d, k, mt, n, ok, t, tpl, v
+        # ---------------------------------------------------------------- refs
+        uses = []
+        for n in iter_own(f.node):
+            if isinstance(n, ast.Dict):
+                for k, v in zip(n.keys, n.values):
+                    if isinstance(k, ast.Constant) and k.value == "$ref":
+                        uses.append((v, n))
+        ctx.count("ref_uses", len(uses))
+        ctx.floor("$ref uses in the OpenAPI emitter", len(uses), 5)
+        stores = []  # (section, key template, key args, stmt)
+        for n in iter_own(f.node):
+            if isinstance(n, ast.Assign) and isinstance(n.targets[0], ast.Subscript):
+                t = n.targets[0]
+                if isinstance(t.value, ast.Subscript) and norm(t.value.value) == "components" and isinstance(t.value.slice, ast.Constant):
+                    key = t.slice
+                    if isinstance(key, ast.Name):
+                        tpl, args = "{" + key.id + "}", {key.id: key.id}
                     else:
-                        r = index.resolve(gr.mod, v, gr)
+                        tpl, args = _template(key)
+                    stores.append((t.value.slice.value, tpl, args, n))
+        # initial literal of openapi(): components = {"requestBodies": {}, "schemas": {"ServerError": ...}}
+        initial = {}
+        for n in iter_own(op.node):
+            if isinstance(n, ast.Dict):
+                for k, v in zip(n.keys, n.values):
+                    if isinstance(k, ast.Constant) and k.value in ("schemas", "requestBodies") and isinstance(v, ast.Dict):
+                        initial.setdefault(k.value, set()).update(x.value for x in v.keys if isinstance(x, ast.Constant))
+        ctx.need("schemas" in initial and "requestBodies" in initial, "openapi()'s initial components literal vanished")
+        flag_sets = {}  # flag name -> [facts at each `flag = True`]
+        for n in iter_own(f.node):
+            if isinstance(n, (ast.Assign, ast.AnnAssign)) and isinstance(n.value, ast.Constant) and n.value.value is True:
+                t = n.targets[0] if isinstance(n, ast.Assign) else n.target
+                if isinstance(t, ast.Name):
+                    flag_sets.setdefault(t.id, []).append(facts_at.get(id(n)) or {})
+        for v, d in uses:
+            tpl, args = _template(v)
+            if tpl is None:
+                ctx.ob("C16.refs", f, v, False, "a $ref that is not a constant template cannot be shown to resolve")
+                continue
+            mt = re.match(r"^#/components/(\w+)/(.+)$", tpl)
+            if not mt:
+                ctx.ob("C16.refs", f, v, False, "$ref {!r} does not point into #/components/<section>/".format(tpl))
+                continue
+            section, keytpl = mt.group(1), mt.group(2)
+            use_facts = facts_at.get(id(d)) or {}
+            if "{" not in keytpl:
+                ok = keytpl in initial.get(section, ())
+                ctx.ob(
+                    "C16.refs",
+                    f,
+                    v,
+                    ok,
+                    "" if ok else "{!r} is referenced but openapi()'s initial components literal does not define it".format(tpl),
+                )
+                continue
+            cands = [s for s in stores if s[0] == section and s[1] == keytpl and s[2] == args]
+            if not cands:
+                ctx.ob(
+                    "C16.refs",
+                    f,
+                    v,
+                    False,
+                    "no `components[{!r}][{}] = ...` store with the same key template: the reference dangles".format(section, keytpl),
+                )
+                continue
+            # guard implication: every fact the definition needs is implied by the use's facts
+            ok, why = False, ""
+            for _sec, _tpl, _args, stmt in cands:
+                need = {k: val for k, val in (facts_at.get(id(stmt)) or {}).items()}
+                missing = []
+                for k, val in need.items():
+                    if use_facts.get(k) is val:
+                        continue
+                    # a boolean flag set to True under (a subset of) the use's facts
+                    if val is True and k in flag_sets and any(all(use_facts.get(a) is b for a, b in fs.items()) for fs in flag_sets[k]):
+                        continue
+                    missing.append("{} is {}".format(k, val))
+                if not missing:
+                    ok = True
+                    break
+                why = "the definition only happens when {} — not implied by the condition under which the reference is written".format(missing)
+            ctx.ob("C16.refs", f, v, ok, why)
+
+    ctx.section(_sec_refs)
+
+    def _sec_crud():
+        nonlocal args, d, item_var, k, mt, n, ok, t, tpl, v, var
+        # ---------------------------------------------------------------- crud
+        table = {}
+        item_var = None
+        for n in iter_own(f.node):
+            if isinstance(n, ast.If) and isinstance(n.test, ast.Compare) and isinstance(n.test.ops[0], ast.In) and isinstance(n.test.left, ast.Constant) and norm(n.test.comparators[0]) == "crud":
+                letter = n.test.left.value
+                for s in n.body:
+                    if isinstance(s, ast.Assign) and isinstance(s.targets[0], ast.Subscript):
+                        t = s.targets[0]
+                        if norm(t.value) == "paths" and isinstance(s.value, ast.Dict):
+                            for k in s.value.keys:
+                                if isinstance(k, ast.Constant) and k.value in ("get", "post", "put", "patch", "delete"):
+                                    table[letter] = (k.value, norm(t.slice))
+                        elif isinstance(t.value, ast.Subscript) and norm(t.value.value) == "paths" and isinstance(t.slice, ast.Constant):
+                            table[letter] = (t.slice.value, norm(t.value.slice))
+        defs = local_defs(f)
+        kinds = {}
+        for var in {v for _m, v in table.values()}:
+            if var in f.params:
+                kinds[var] = "collection"
+            else:
+                d = defs.get(var, [])
+                tpl, args = _template(d[0]) if d else (None, None)
+                if tpl and re.match(r"^\{route\}/\{\{\{(\w+)\}\}\}$", tpl):
+                    kinds[var] = "item"
+                    item_var = (var, args, d[0])
+                else:
+                    kinds[var] = "?"
+        emit_table = {k: (m, kinds.get(v, "?")) for k, (m, v) in table.items()}
+        for letter, want in sorted(EXPECTED.items()):
+            got = emit_table.get(letter)
+            ctx.ob(
+                "C16.crud",
+                f,
+                "OpenAPI emitter: {} -> {}".format(letter, got),
+                got == want,
+                "" if got == want else "requested {} must produce {} on the {} path, the emitter produces {}".format(letter, want[0].upper(), want[1], got),
+                line=f.node.lineno,
+            )
+        extra = sorted(set(emit_table) - set(EXPECTED))
+        ctx.ob("C16.crud", f, "no operation beyond C/R/D", not extra, "" if not extra else "unexpected letters handled: {}".format(extra), line=f.node.lineno)
+        # the routes side
+        gr = index.func("cdd.compound.openapi.gen_routes.gen_routes")
+        letter_fn = {}
+        for n in iter_own(gr.node):
+            if isinstance(n, ast.If) and isinstance(n.test, ast.Compare) and isinstance(n.test.left, ast.Constant) and norm(n.test.comparators[0]) == "crud":
+                for c in ast.walk(n):
+                    if isinstance(c, ast.Call):
+                        r = index.callee(gr.mod, c, gr)
                         if r and r.startswith("cdd.routes.emit.bottle."):
-                            letter_fn[k.value] = r
-    ctx.need(set("CRD") <= set(letter_fn), "cannot read the letter -> route emitter table from gen_routes: {}".format(letter_fn))
-    consts = index.module("cdd.routes.emit.bottle_constants_utils")
-    for letter, want in sorted(EXPECTED.items()):
-        fn = letter_fn.get(letter)
-        if fn is None:
-            ctx.ob("C16.crud", gr, "routes: {} -> None".format(letter), False, "no route emitter for {}".format(letter), line=gr.node.lineno)
-            continue
-        bf = index.func(fn)
-        tables = {x.id for x in ast.walk(bf.node) if isinstance(x, ast.Name) and x.id.endswith("_route_variants")}
-        ctx.need(len(tables) == 1, "cannot find the template table used by {}".format(fn))
-        tname = tables.pop()
-        ent = consts.top.get(tname)
-        ctx.need(ent is not None and ent[0] == "var", "template table {} vanished".format(tname))
-        decos = set()
-        for c in ast.walk(ent[1][-1].value):
-            if isinstance(c, ast.Constant) and isinstance(c.value, str):
-                for line in c.value.splitlines():
-                    mt = re.match(r"^@\{app\}\.(\w+)\((.*)\)\s*$", line.strip())
-                    if mt:
-                        arg = mt.group(2)
-                        kind = "item" if re.search(r"/:\{\w+\}", arg) else "collection"
-                        decos.add((mt.group(1), kind))
-        ctx.need(decos, "no decorator line found in {}".format(tname))
-        ok = decos == {want}
+                            letter_fn[n.test.left.value] = r
+            if isinstance(n, ast.Dict):
+                for k, v in zip(n.keys, n.values):
+                    if isinstance(k, ast.Constant) and k.value in "CRUD" and len(str(k.value)) == 1:
+                        if isinstance(v, ast.Constant) and v.value is None:
+                            letter_fn.setdefault(k.value, None)
+                        else:
+                            r = index.resolve(gr.mod, v, gr)
+                            if r and r.startswith("cdd.routes.emit.bottle."):
+                                letter_fn[k.value] = r
+        ctx.need(set("CRD") <= set(letter_fn), "cannot read the letter -> route emitter table from gen_routes: {}".format(letter_fn))
+        consts = index.module("cdd.routes.emit.bottle_constants_utils")
+        for letter, want in sorted(EXPECTED.items()):
+            fn = letter_fn.get(letter)
+            if fn is None:
+                ctx.ob("C16.crud", gr, "routes: {} -> None".format(letter), False, "no route emitter for {}".format(letter), line=gr.node.lineno)
+                continue
+            bf = index.func(fn)
+            tables = {x.id for x in ast.walk(bf.node) if isinstance(x, ast.Name) and x.id.endswith("_route_variants")}
+            ctx.need(len(tables) == 1, "cannot find the template table used by {}".format(fn))
+            tname = tables.pop()
+            ent = consts.top.get(tname)
+            ctx.need(ent is not None and ent[0] == "var", "template table {} vanished".format(tname))
+            decos = set()
+            for c in ast.walk(ent[1][-1].value):
+                if isinstance(c, ast.Constant) and isinstance(c.value, str):
+                    for line in c.value.splitlines():
+                        mt = re.match(r"^@\{app\}\.(\w+)\((.*)\)\s*$", line.strip())
+                        if mt:
+                            arg = mt.group(2)
+                            kind = "item" if re.search(r"/:\{\w+\}", arg) else "collection"
+                            decos.add((mt.group(1), kind))
+            ctx.need(decos, "no decorator line found in {}".format(tname))
+            ok = decos == {want}
+            ctx.ob(
+                "C16.crud",
+                bf,
+                "routes: {} -> {} -> {} -> {}".format(letter, bf.short, tname, sorted(decos)),
+                ok,
+                "" if ok else "requested {} must generate a {} route on the {} path; the template(s) declare {}".format(letter, want[0].upper(), want[1], sorted(decos)),
+                line=bf.node.lineno,
+            )
+        if letter_fn.get("U", 1) is None:
+            ctx.note("the CLI admits CRUD letter 'U' but gen_routes maps it to None (TypeError when requested): outside the property's {C,R,D} domain")
+        ctx.section(_bulk, ctx, index)
+
+    ctx.section(_sec_crud)
+
+    def _sec_params():
+        nonlocal args, d, k, n, v, var
+        # -------------------------------------------------------------- params
+        ctx.need(item_var is not None, "item path template vanished")
+        var, args, tpl_node = item_var
+        id_expr = args.get("id")
+        decl_ok = False
+        for n in iter_own(f.node):
+            if isinstance(n, ast.Assign) and norm(n.targets[0]) == "paths[{}]".format(var) and isinstance(n.value, ast.Dict):
+                for k, v in zip(n.value.keys, n.value.values):
+                    if isinstance(k, ast.Constant) and k.value == "parameters" and isinstance(v, ast.List):
+                        for e in v.elts:
+                            if isinstance(e, ast.Dict):
+                                d = {kk.value: vv for kk, vv in zip(e.keys, e.values) if isinstance(kk, ast.Constant)}
+                                if norm(d.get("name")) == id_expr and isinstance(d.get("in"), ast.Constant) and d["in"].value == "path":
+                                    decl_ok = True
         ctx.ob(
-            "C16.crud",
-            bf,
-            "routes: {} -> {} -> {} -> {}".format(letter, bf.short, tname, sorted(decos)),
-            ok,
-            "" if ok else "requested {} must generate a {} route on the {} path; the template(s) declare {}".format(letter, want[0].upper(), want[1], sorted(decos)),
-            line=bf.node.lineno,
+            "C16.params",
+            f,
+            "item path {} declares path parameter {}".format(short(tpl_node, 50), id_expr),
+            decl_ok,
+            "" if decl_ok else "the item path's template parameter `{}` is not declared (name / in: path) in the same path item".format(id_expr),
+            line=tpl_node.lineno,
         )
-    if letter_fn.get("U", 1) is None:
-        ctx.note("the CLI admits CRUD letter 'U' but gen_routes maps it to None (TypeError when requested): outside the property's {C,R,D} domain")
-    _bulk(ctx, index)
-    # -------------------------------------------------------------- params
-    ctx.need(item_var is not None, "item path template vanished")
-    var, args, tpl_node = item_var
-    id_expr = args.get("id")
-    decl_ok = False
-    for n in iter_own(f.node):
-        if isinstance(n, ast.Assign) and norm(n.targets[0]) == "paths[{}]".format(var) and isinstance(n.value, ast.Dict):
-            for k, v in zip(n.value.keys, n.value.values):
-                if isinstance(k, ast.Constant) and k.value == "parameters" and isinstance(v, ast.List):
-                    for e in v.elts:
-                        if isinstance(e, ast.Dict):
-                            d = {kk.value: vv for kk, vv in zip(e.keys, e.values) if isinstance(kk, ast.Constant)}
-                            if norm(d.get("name")) == id_expr and isinstance(d.get("in"), ast.Constant) and d["in"].value == "path":
-                                decl_ok = True
-    ctx.ob(
-        "C16.params",
-        f,
-        "item path {} declares path parameter {}".format(short(tpl_node, 50), id_expr),
-        decl_ok,
-        "" if decl_ok else "the item path's template parameter `{}` is not declared (name / in: path) in the same path item".format(id_expr),
-        line=tpl_node.lineno,
-    )
+
+    ctx.section(_sec_params)
+
